@@ -106,6 +106,10 @@ def filter_closures(facts, m):
     for c in m.calls_to(r"Iterator>::filter$|::filter$|Iterator>::any$|::any$"):
         if len(c.args) < 2:
             continue
+        k = op_const(c.args[1])
+        if k is not None and k.get("fn") and facts.body(k["fn"]) is not None:
+            out.append((c, facts.body(k["fn"])))     # a predicate function used directly: `.any(needs_reference)`
+            continue
         p = op_place(c.args[1])
         d = single_def(m, p["l"]) if p else None
         if d and d[1] == "assign" and d[2]["rv"]["k"] == "agg" and d[2]["rv"].get("agg") == "closure":
